@@ -14,7 +14,7 @@ RULE = ('Base documents: generated conformant documents of every selectable map 
         'non-trivial = distinct (map, node path, fault kind) triples decided.')
 ASSUMPTIONS = ['a syntax fault may be reported at any element position the violated note names', 'unknown / out-of-place segments may be reported with segment code 1 or 2',
                'faults are only injected where they cannot change how the segment or its neighbours are matched (no qualifiers, HL/LX numbers, BHT02), except the structural kinds, which are constructed so that the successor still matches its own node first']
-REQUIRED_COUNTERS = ['bases:with-interleaved-sibling-loops', 'bases:with-X,Y,X-sibling-loops', 'missing_segment:in-later-instance-after-sibling-loop', 'bad_code:member-of-another-external-set-seen-earlier', 'bad_code:code-list-on-non-ID-element', 'missing_required:whole-composite', 'missing_required:whole-composite:at-the-tail', 'bad_qualified_datetime:format:DT', 'bad_qualified_datetime:format:TM', 'bad_qualified_datetime:format:RD8', 'faults'] + ['kind:' + k for k in faults.ALL_KINDS] + ['localised', 'others-accepted-checked']
+REQUIRED_COUNTERS = ['bases:with-interleaved-sibling-loops', 'bases:with-X,Y,X-sibling-loops', 'missing_segment:in-later-instance-after-sibling-loop', 'bad_code:member-of-another-external-set-seen-earlier', 'bad_code:code-list-on-non-ID-element', 'missing_required:whole-composite', 'missing_required:whole-composite:at-the-tail', 'bad_qualified_datetime:format:DT', 'bad_qualified_datetime:format:TM', 'bad_qualified_datetime:format:RD8', 'syntax:L:short', 'syntax:L:gaps', 'syntax:P:short', 'syntax:P:gaps', 'syntax:C:gaps', 'syntax:R:short', 'bad_char:outside-charset:B:00501', 'bad_char:outside-charset:B:00401', 'bad_char:outside-charset:E:00401', 'faults'] + ['kind:' + k for k in faults.ALL_KINDS] + ['localised', 'others-accepted-checked']
 MIN_CASES = {'quick': 1200, 'thorough': 30000}
 WATCHDOG_S = {'quick': 1200, 'thorough': 7200}
 
@@ -163,7 +163,7 @@ def run(ctx):
             reps = 1 if ctx.quick else 3
             kinds = faults.ALL_KINDS if not only_xyx else ['missing_segment', 'max_use', 'loop_repeat', 'out_of_place', 'missing_required']
             for kind in kinds:
-                for rep in range(reps + (4 if xyx and kind == 'missing_segment' else 0) + (2 if kind == 'bad_qualified_datetime' else 0)):
+                for rep in range(reps + (4 if xyx and kind == 'missing_segment' else 0) + (2 if kind in ('bad_qualified_datetime', 'bad_char', 'syntax') else 0)):
                     f = faults.inject(rng, base, kind=kind, tries=6)
                     if f is None:
                         ctx.count('not-applicable:' + kind)
@@ -173,6 +173,10 @@ def run(ctx):
                         ctx.count('bad_code:code-list-on-non-ID-element')
                     if f.note == 'member-of-another-external-set-seen-earlier':
                         ctx.count('bad_code:member-of-another-external-set-seen-earlier')
+                    if f.note and f.note.startswith('outside-charset:'):
+                        ctx.count('bad_char:' + f.note)
+                    if f.kind == 'syntax' and f.note and ' shape:' in f.note:
+                        ctx.count('syntax:' + f.note.split(' shape:')[1])
                     if f.note and f.note.startswith('format:'):
                         ctx.count('bad_qualified_datetime:' + f.note)
                     if f.note and f.note.startswith('whole-composite'):
@@ -213,6 +217,37 @@ def run(ctx):
                 continue
             done += 1
             judge(ctx, f, {'map': e['file'], 'entry': e, 'gen_seed': seed, 'params': kw, 'fault': f.describe(), 'text': None}, sigs)
+            n += 1
+    # directed bases for the rare syntax-note shapes: 'if the first is present, one of the others must be' where the first is the last element carried
+    for e in entries:
+        if not ctx.mine(('syntax-shape', e['file'], e.get('tspc'))):
+            continue
+        root = gen_doc.load_map(e['file'])
+        if not any(nd.kind == 'seg' and any(nt[0] == 'L' for nt in nd.syntax) for nd in refmap.walk(root)):
+            continue
+        done = 0
+        for t in range(16):
+            if done >= (2 if ctx.quick else 8):
+                break
+            seed = zlib.crc32(repr((ctx.seed, 'syntax-shape', e['file'], t)).encode())
+            kw = dict(fill=0.7, opt_prob=0.9, maxrep=1, charset='E', rich=False, n_isa=1, n_gs=1, n_st=1)
+            try:
+                base = gen_doc.gen_document(e, seed, **kw)
+            except gen_doc.GenFailed:
+                continue
+            if len(base.recs) > 900:
+                continue
+            rng = ctx.sub_rng('c03s', e['file'], t)
+            f = faults._K.syntax(rng, base, want=['L:short', 'L:gaps'][t % 2])
+            if f is None:
+                continue
+            r0 = pipeline.validate(base.text(), charset=base.charset)
+            if r0.exc is not None or r0.verdict is not True:
+                ctx.count('base-not-accepted')
+                continue
+            done += 1
+            ctx.count('syntax:' + f.note.split(' shape:')[1])
+            judge(ctx, f, {'map': e['file'], 'entry': e, 'gen_seed': seed, 'params': kw, 'fault': f.describe(), 'text': f.doc.text() if len(f.doc.recs) < 120 else None}, sigs)
             n += 1
     ctx.case(n=n, sigs=sorted(sigs))
 
